@@ -104,6 +104,52 @@ macro_rules! indices {
     }};
 }
 
+/// run by a child process (`--misaligned-probe`): every *_slice function on sub-slices that start 4, 8
+/// and 12 bytes (f64: 8, 24) past a 16-byte boundary; returns the number of wrong results. An aligned
+/// whole-register load or store where an unaligned one is needed faults here, which the parent observes
+/// as the death of the child instead of dying itself.
+fn misaligned_probe() -> u32 {
+    #[repr(align(32))]
+    struct A32([f32; 40]);
+    #[repr(align(32))]
+    struct A64([f64; 40]);
+    let mut bad = 0u32;
+    macro_rules! probe {
+        ($A:ident, $S:ident, $(($T:ident, $N:expr, $from:ident, $write:ident, $arr:ident)),*) => {$(
+            for off in 1..4usize {
+                let mut src = $A([0.0; 40]);
+                for i in 0..40 { src.0[i] = (i as $S) * 1.5 + 0.25; }
+                let v = <$T>::$from(std::hint::black_box(&src.0[off..off + $N]));
+                let got = v.$arr();
+                for i in 0..$N { if got[i] != src.0[off + i] { bad += 1; } }
+                let mut dst = $A([-1.0; 40]);
+                v.$write(std::hint::black_box(&mut dst.0[off..off + $N]));
+                for i in 0..40 { let w = if i >= off && i < off + $N { src.0[i] } else { -1.0 }; if dst.0[i] != w { bad += 1; } }
+            }
+        )*};
+    }
+    probe!(A32, f32, (Vec2, 2, from_slice, write_to_slice, to_array), (Vec3, 3, from_slice, write_to_slice, to_array), (Vec3A, 3, from_slice, write_to_slice, to_array), (Vec4, 4, from_slice, write_to_slice, to_array),
+        (Quat, 4, from_slice, write_to_slice, to_array), (Mat2, 4, from_cols_slice, write_cols_to_slice, to_cols_array), (Mat3, 9, from_cols_slice, write_cols_to_slice, to_cols_array), (Mat3A, 9, from_cols_slice, write_cols_to_slice, to_cols_array),
+        (Mat4, 16, from_cols_slice, write_cols_to_slice, to_cols_array), (Affine2, 6, from_cols_slice, write_cols_to_slice, to_cols_array), (Affine3A, 12, from_cols_slice, write_cols_to_slice, to_cols_array));
+    probe!(A64, f64, (DVec2, 2, from_slice, write_to_slice, to_array), (DVec3, 3, from_slice, write_to_slice, to_array), (DVec4, 4, from_slice, write_to_slice, to_array), (DQuat, 4, from_slice, write_to_slice, to_array),
+        (DMat2, 4, from_cols_slice, write_cols_to_slice, to_cols_array), (DMat3, 9, from_cols_slice, write_cols_to_slice, to_cols_array), (DMat4, 16, from_cols_slice, write_cols_to_slice, to_cols_array),
+        (DAffine2, 6, from_cols_slice, write_cols_to_slice, to_cols_array), (DAffine3, 12, from_cols_slice, write_cols_to_slice, to_cols_array));
+    // array / reference conversions of the SIMD-backed types from under-aligned storage
+    let src = A32(core::array::from_fn(|i| i as f32 + 0.5));
+    for off in 1..4usize {
+        let a4: &[f32; 4] = (&src.0[off..off + 4]).try_into().unwrap();
+        let a3: &[f32; 3] = (&src.0[off..off + 3]).try_into().unwrap();
+        if Vec4::from_array(*std::hint::black_box(a4)).to_array() != *a4 { bad += 1; }
+        if Vec3A::from_array(*std::hint::black_box(a3)).to_array() != *a3 { bad += 1; }
+        if Quat::from_array(*std::hint::black_box(a4)).to_array() != *a4 { bad += 1; }
+        let a16: &[f32; 16] = (&src.0[off..off + 16]).try_into().unwrap();
+        if Mat4::from_cols_array(std::hint::black_box(a16)).to_cols_array() != *a16 { bad += 1; }
+        let a9: &[f32; 9] = (&src.0[off..off + 9]).try_into().unwrap();
+        if Mat3A::from_cols_array(std::hint::black_box(a9)).to_cols_array() != *a9 { bad += 1; }
+    }
+    bad
+}
+
 fn hand_written_generic(rep: &mut Report) {
     // the closure-taking `map` methods (the only generic inherent functions)
     macro_rules! maps {
@@ -166,9 +212,14 @@ fn conversions(rep: &mut Report) {
 }
 
 fn main() {
+    if std::env::args().any(|a| a == "--misaligned-probe") {
+        let bad = misaligned_probe();
+        println!("misaligned-probe wrong={bad}");
+        std::process::exit(if bad == 0 { 0 } else { 3 });
+    }
     let mut rep = Report::new("C18", "exploration");
     silence_panics();
-    rep.rule("(a) totality: for each of the public inherent functions of the 20 float vector/quaternion/matrix/affine types (generated from the rustdoc JSON of the tree) the full product of the shape alphabets (vectors: 20 shapes incl. zero, -0, subnormal, tiny, huge, MAX, +-inf, NaN lanes, mixtures; scalars: 16; matrices/quaternions/affines: 12; EulerRot: 24; indices: valid ones; slices: long enough) under catch_unwind - no panic allowed; one evaluation = one call; (b) *_slice functions on exact-size heap buffers of every length 0..N+4 between canary allocations (panic iff too short, exactly the first N elements read/written, tail untouched), every index 0..N+2 and usize::MAX (panic iff out of range), conversions of the SIMD-backed types on boxed values; all cases count as non-trivial");
+    rep.rule("(a) totality: for each of the public inherent functions of the 20 float vector/quaternion/matrix/affine types (generated from the rustdoc JSON of the tree) the full product of the shape alphabets (vectors: 22 shapes incl. zero, -0, subnormal, tiny, huge, MAX, +-inf, NaN lanes, mixtures; scalars: 16; matrices/quaternions/affines: 12; EulerRot: 24; indices: valid ones; slices: long enough) under catch_unwind - no panic allowed; one evaluation = one call; (b) *_slice functions on exact-size heap buffers of every length 0..N+4 between canary allocations (panic iff too short, exactly the first N elements read/written, tail untouched), every index 0..N+2 and usize::MAX (panic iff out of range), conversions of the SIMD-backed types on boxed values; all cases count as non-trivial");
     // under Miri only the pointer-cast / slice / index part (b) is interpreted (the totality product is
     // 1e8 calls); totality is then an empty table
     let miri = rep.args.cfg == "miri";
@@ -250,6 +301,23 @@ fn main() {
     }
     mask_idx!(BVec2, 2; BVec3, 3; BVec4, 4; BVec3A, 3; BVec4A, 4);
     conversions(&mut rep);
+    // slices and arrays that do not start on a 16-byte boundary: in a child process, so that a fault
+    // (an aligned whole-register access where an unaligned one is needed) is observed, not suffered
+    if rep.wanted_pub("slice functions on under-aligned storage") {
+        let r = if miri { Ok((misaligned_probe(), String::new())) } else {
+            std::process::Command::new(std::env::current_exe().expect("own path")).arg("--misaligned-probe").output().map(|o| {
+                let wrong = if o.status.success() { 0 } else if o.status.code() == Some(3) { 1 } else { u32::MAX };
+                (wrong, format!("status {:?} stdout {:?} stderr {:?}", o.status, String::from_utf8_lossy(&o.stdout).trim().to_string(), String::from_utf8_lossy(&o.stderr).chars().take(300).collect::<String>()))
+            })
+        };
+        rep.evals += 1; rep.nontriv += 1;
+        match r {
+            Ok((0, _)) => rep.spaces.push(json!({"space": "slice functions on under-aligned storage/20 types x 3 offsets + array conversions (child process)", "size": 1, "evaluations": 1, "exhaustive": true, "violations": 0})),
+            Ok((u32::MAX, d)) => rep.violation("slice functions on under-aligned storage", 0, "slice / array functions on storage that does not start on a 16-byte boundary", format!("the probe process died: {d}")),
+            Ok((_, d)) => rep.violation("slice functions on under-aligned storage", 0, "slice / array functions on storage that does not start on a 16-byte boundary", format!("wrong values read or written: {d}")),
+            Err(e) => { eprintln!("MACHINERY: cannot start the probe process: {e}"); std::process::exit(2); }
+        }
+    }
     rep.sample(json!({"totality": "Vec3::rotate_towards(self, rhs, max_angle)", "args": "20 x 20 x 16 shapes, e.g. (zero, NaN-lane, -inf)", "oracle": "no panic"}));
     rep.sample(json!({"memory": "Vec3A::write_to_slice", "len": 3, "buffer": "Box<[f32]> of exactly 3 elements between canary allocations", "oracle": "3 elements written, no neighbouring byte touched (ASan: no 16-byte store)"}));
     // operator trait impls: every form agrees with the by-value form (panic parity included) and
